@@ -96,6 +96,8 @@ def run(ch: Choices, focus: str = "C01", params: Optional[dict] = None) -> dict:
     known = params.get("known", {})
     seams.install()
     CLOCK.install()
+    if focus == "C15":
+        return run_c15(ch, params, known)
     out = {"violations": [], "probes": Counter(), "faults": Counter(), "steps": 0, "nontrivial": False}
     opts = focus_opts(focus, ch, known, params)
     model = gen.gen_model(ch, opts)
@@ -123,11 +125,17 @@ def run(ch: Choices, focus: str = "C01", params: Optional[dict] = None) -> dict:
                 pm, order = model, list(range(len(model["props"])))
             mode = pick_mode(ch, focus, model)
             policy = pick_policy(ch, focus)
-            res = run_one(ch, focus, pm, cfg, mode, policy, ref, out)
-        configs.append({"cfg": [cfg["cons"], cfg["var_h"], cfg["dom_h"]], "order": order, "mode": mode, "policy": policy})
+            pat = seams.draw_pattern(ch)
+            with seams.dirty_allocator(pat):
+                res = run_one(ch, focus, pm, cfg, mode, policy, ref, out)
+            if pat is not None:
+                out["faults"]["dirty-allocator"] += 1
+        configs.append({"cfg": [cfg["cons"], cfg["var_h"], cfg["dom_h"]], "order": order, "mode": mode, "policy": policy,
+                        "alloc": pat if not isinstance(pat, tuple) else list(pat)})
         h.append(res)
         if out["violations"]:
             break
+    out.pop("_last", None)
     out["configs"] = configs
     out["log_sha"] = sha(h)
     out["key"] = sha([out["model"], configs])[:16]
@@ -158,6 +166,71 @@ def run_explicit(ch: Choices, focus: str, explicit: dict) -> dict:
     return out
 
 
+def run_c15(ch: Choices, params: dict, known: dict) -> dict:
+    """In-process part of C15: the same problem with the same configuration is solved twice in this interpreter.  The
+    two executions draw the same simulator choices (same sub-seed) and differ in what a correct solver cannot see: the
+    contents of never-written memory handed out by the allocator, what else was solved or abandoned in between, and
+    whether the problem object is fresh or was already used by the first solver.  Solutions (in order), the returned
+    optimum, the 13 statistics and the recorded event log must be identical."""
+    out = {"violations": [], "probes": Counter(), "faults": Counter(), "steps": 0, "nontrivial": False}
+    V = out["violations"]
+    opts = focus_opts("C15", ch, known, params)
+    model = gen.gen_model(ch, opts)
+    out["model"] = gen.render_model(model)
+    out["model_dict"] = {k: model[k] for k in ("shr", "idx", "off", "props")}
+    ref = sorted(R.solutions(model))
+    cfg = gen.gen_config(ch, model) if ch.chance(2, 3, "cfg.random") else dict(gen.DEFAULT_CONFIG)
+    mode = pick_mode(ch, "C17", model)
+    sub = ch.choose(1 << 30, "sub")
+    pats = [0x00, 0xFF, 0xA5, 0x01, 0x80, ("random", ch.choose(1 << 16, "alloc.seed"))]
+    ia = ch.choose(len(pats), "allocA")
+    ib = (ia + 1 + ch.choose(len(pats) - 1, "allocB")) % len(pats)
+    between = ch.choose(3, "between")  # 0 nothing, 1 another problem solved, 2 another problem left half enumerated
+    reuse = ch.chance(1, 2, "reuse_problem")
+    with seams.dirty_allocator(pats[ia]):
+        run_one(Choices(seed=sub), "C15", model, cfg, mode, "native", ref, out)
+    a = out.pop("_last")
+    keep = []
+    if between and not V:
+        with ch.scope("other"), seams.dirty_allocator(pats[ch.choose(len(pats), "alloc")]):
+            other = gen.gen_model(ch, opts)
+            ocfg = gen.gen_config(ch, other)
+            oref = sorted(R.solutions(other))
+            scratch = {"violations": [], "probes": Counter(), "faults": Counter(), "steps": 0}
+            run_one(ch, "C15", other, ocfg, ["partial", 1] if between == 2 else ["find_all"], "native", oref, scratch)
+            keep.append(scratch.pop("_last", None))  # the abandoned solver's problem stays alive
+            out["probes"]["other_problem_in_between"] += 1
+    if not V:
+        with seams.dirty_allocator(pats[ib]):
+            run_one(Choices(seed=sub), "C15", model, cfg, mode, "native", ref, out, problem=a["problem"] if reuse else None)
+        b = out.pop("_last")
+        out["faults"]["dirty-allocator"] += 2
+        if reuse:
+            out["probes"]["problem_object_reused"] += 1
+        ctx = (f"[{out['model']} cfg={cfg['cons'], cfg['var_h'], cfg['dom_h']} {mode}] solved twice in one interpreter "
+               f"(never-written memory {pats[ia]} then {pats[ib]}, in between: {['nothing', 'another problem solved', 'another problem left half enumerated'][between]}, "
+               f"problem object {'reused' if reuse else 'rebuilt'}): ")
+        for what in ("sols", "result", "stats", "crashed"):
+            if a.get(what) != b.get(what):
+                if what == "stats" and a.get("stats") and b.get("stats"):
+                    d = {k: (a["stats"][k], b["stats"][k]) for k in a["stats"] if a["stats"][k] != b["stats"].get(k)}
+                    msg = f"statistics differ (first, second): {d}"
+                else:
+                    msg = f"{what} differ: first {str(a.get(what))[:200]} second {str(b.get(what))[:200]}"
+                V.append({"property": "C15", "oracle": "second-run-differs-" + what, "message": ctx + msg})
+                break
+        else:
+            if a.get("digest") != b.get("digest"):
+                V.append({"property": "C15", "oracle": "second-run-differs-event-log", "message": ctx + "same solutions and statistics but a different sequence of constraint executions, branches and backtracks"})
+    out.pop("_last", None)
+    out["log_sha"] = sha([out["model"], cfg, mode, a.get("digest")])
+    out["key"] = sha([out["model"], [cfg["cons"], cfg["var_h"], cfg["dom_h"]], mode])[:16]
+    out["nontrivial"] = R.space_size(model["shr"]) >= 2 and len(model["props"]) >= 1 and out["probes"]["executions"] > 0
+    out["sample"] = {"model": out["model"], "config": [cfg["cons"], cfg["var_h"], cfg["dom_h"]], "mode": mode,
+                     "between": between, "problem_object_reused": reuse}
+    return out
+
+
 def pick_mode(ch: Choices, focus: str, model: dict):
     nv = len(model["idx"])
     if focus == "C03":
@@ -184,7 +257,7 @@ def pick_policy(ch: Choices, focus: str) -> str:
     return ["native", "random", "random", "reverse", "starve"][ch.choose(5, "policy")] if True else "native"
 
 
-def run_one(ch, focus, model, cfg, mode, policy, ref, out) -> str:
+def run_one(ch, focus, model, cfg, mode, policy, ref, out, problem=None) -> str:
     """One solver call with all monitors.  Appends violations to out, returns the event-log hash."""
     V = out["violations"]
 
@@ -192,7 +265,9 @@ def run_one(ch, focus, model, cfg, mode, policy, ref, out) -> str:
         if not any(v["property"] == prop and v["oracle"] == oracle for v in V):
             V.append({"property": prop, "oracle": oracle, "message": msg})
 
-    problem = nucsio.build_problem(model)
+    if problem is None:
+        problem = nucsio.build_problem(model)
+    out["_last"] = {"problem": problem}
     try:
         solver = nucsio.build_solver(problem, cfg)
     except Exception as e:  # construction of an in-contract problem must not fail
@@ -319,6 +394,10 @@ def run_one(ch, focus, model, cfg, mode, policy, ref, out) -> str:
     # ---------------------------------------------------------------------------------------------- C17
     if crashed is None:
         check_stats(solver, L, cfg, mode, len(sols) if result is None else None, viol, ctx)
+    out["_last"].update(
+        sols=list(sols), result=None if result is None else [int(x) for x in result], crashed=crashed,
+        stats=None if crashed else {k: int(v) for k, v in solver.get_statistics().items()}, digest=L.h.hexdigest(),
+    )
     return L.h.hexdigest()
 
 
